@@ -5,6 +5,7 @@ import (
 	"context"
 	"fmt"
 	"io"
+	"os"
 	"sort"
 	"sync"
 	"testing"
@@ -68,7 +69,14 @@ func genRemote(p *simkit.Plan, r *simkit.Rand, tier string) {
 		n = r.Range(2, 25)
 	}
 	for i := 0; i < n; i++ {
-		switch r.Weighted([]int{35, 30, 20, 8, 7}) {
+		switch r.Weighted([]int{35, 30, 20, 8, 7, 5}) {
+		case 5:
+			// The roots vanish, are scanned while absent, and return unchanged.
+			p.Ops = append(p.Ops, simkit.Op{Actor: "driver", Kind: "scan", N: []int64{int64(r.Intn(2))}},
+				simkit.Op{Actor: "driver", Kind: "vanish"},
+				simkit.Op{Actor: "driver", Kind: "scan", N: []int64{int64(r.Intn(2))}},
+				simkit.Op{Actor: "driver", Kind: "return"},
+				simkit.Op{Actor: "driver", Kind: "scan", N: []int64{int64(r.Intn(2))}})
 		case 0:
 			genEditOn(r, p, "driver", &id, "beta")
 		case 1:
@@ -320,6 +328,20 @@ func execRemote(t *testing.T, plan *simkit.Plan) *simkit.Result {
 					}
 					s.Count("probe.transitions_compared", 1)
 					nontrivial = true
+				case "vanish":
+					// Both mirrored roots disappear (a volume unmounted)...
+					for _, side := range []string{"beta", "gamma"} {
+						os.Rename(c.d.roots[side], c.d.roots[side]+".away")
+					}
+					s.Count("probe.root_vanished", 1)
+				case "return":
+					// ... and come back exactly as they were.
+					for _, side := range []string{"beta", "gamma"} {
+						if _, err := os.Lstat(c.d.roots[side] + ".away"); err == nil {
+							rmAll(c.d.roots[side])
+							os.Rename(c.d.roots[side]+".away", c.d.roots[side])
+						}
+					}
 				default:
 					// A user edit, applied to both mirrors.
 					c.d.userOp(op)
